@@ -17,7 +17,35 @@ THEOREMS = [
     "C15_get_first_in_iro", "C15_accessors_agree", "C15_contains_iter_names_agree", "C15_nad_all_eq_get",
     "C15_tagged_first_in_iro", "C15_tags_union", "C15_set_tag_seen", "C15_invariants_all_run",
     "C15_errors_all_collected", "C15_iro_follows_bases", "C15_memo_transparent", "C15_iro_members",
+    "C15_generated_get_eq_model", "C15_generated_accessors_eq_model", "C15_generated_names_eq_model",
+    "C15_generated_nad_all_eq_model", "C15_generated_tagged_eq_model", "C15_generated_tags_eq_model",
+    "C15_generated_validate_eq_model", "C15_generated_changed_eq_model",
 ]
+SOURCE = os.path.join(C.REPO, "src", "zope", "interface", "interface.py")
+GEN_FILE = os.path.join(C.COQ, "Gen", "AttrsKernel.v")
+
+
+def regenerate(run):
+    """Re-derive Gen/AttrsKernel.v from the current interface.py (fail closed).  On abort a stub
+    without a kernel is written: Proofs/AttrsKernel.v and Properties/C15.v then cannot be checked,
+    and the abort is returned as the broken obligation.  The Tie (model + Spec oracle) does not
+    depend on the kernel and is built here so that the correspondence runs in every case."""
+    from ..translate import attrs as T
+    errs = []
+    try:
+        text = T.translate(SOURCE)
+    except T.TranslationError as e:
+        text = T.stub(str(e))
+        errs.append("harness/translate/attrs.py refused %s: %s (Gen/AttrsKernel.v has no kernel; the theorems of "
+                    "Properties/C15.v are NOT re-proved about the current source)" % (SOURCE, e))
+    with C.CoqLock():
+        C.write_if_changed(GEN_FILE, text)
+    run.coverage["translated_kernel"] = {"source": SOURCE, "generated": "coq/Gen/AttrsKernel.v", "ok": not errs}
+    ok, out = C.coq_make(["Tie/C15.vo"])
+    if not ok:
+        errs.append("Tie/C15.vo does not build:\n" + out[-2000:])
+    return errs
+
 RULE = ("interface DAGs of 2..7 interfaces (plus Interface) with direct attributes (Attribute or method), tagged values "
         "(class-body taggedValue or setTaggedValue; ints or None, None being a defined value) and invariants; 20% of the "
         "cases ('twin-' kinds) rebase an interface with warm dependents from a base O onto a different interface object "
@@ -26,7 +54,10 @@ RULE = ("interface DAGs of 2..7 interfaces (plus Interface) with direct attribut
         "(final bases, definers per name, definers per tag, number of rebasings, get-before-rebase) signature; "
         "kind 'diamond1' = the final graph has a diamond whose common ancestor defines a name or tag that exactly one "
         "branch overrides")
-TRUSTED_BASE = ["Model/Ro.v fresh_sro as the reference resolution order of a graph (its agreement with __iro__ is also "
+TRUSTED_BASE = ["harness/translate/attrs.py: the statement templates it accepts and the Gallina it emits for them (fail-closed: "
+                "any other shape aborts); the model's vocabulary for dicts / sets / the memo (Model/Attrs.v dget, dset, "
+                "dupdate, kupdate, set_memo), validated by the correspondence",
+                "Model/Ro.v fresh_sro as the reference resolution order of a graph (its agreement with __iro__ is also "
                 "compared here on every snapshot; its theory is property C03)",
                 "propagation of changed() to the dependents yields the fresh order at each visited node (property C02); "
                 "WHICH nodes are visited (memo clearing) is modelled and compared"]
@@ -400,7 +431,11 @@ def finding_key(case, obs, mode):
 TECHNIQUE = ("Coq proof over a Gallina model of Specification.get (with the _v_attrs memo and its clearing by changed), "
              "InterfaceClass.names / namesAndDescriptions / tagged values / validateInvariants; vm_compute correspondence "
              "and an independent first-definition-along-fresh-order oracle on both implementations")
-LEVEL_TEXT = ("Machine-checked theorems (Properties/C15.v, 12 theorems, closed under the global context) hold for every DAG, "
+LEVEL_TEXT = ("Machine-checked theorems (Properties/C15.v, 20 theorems, closed under the global context): 8 state that the "
+              "kernel regenerated on every run from the TEXT of interface.py (Specification.get / changed, InterfaceClass."
+              "names / __iter__ / namesAndDescriptions / getDescriptionFor / __contains__ / direct / queryDescriptionFor / "
+              "validateInvariants / queryTaggedValue / getTaggedValue / getTaggedValueTags) equals the model on every "
+              "input and state; 12 hold for every DAG, "
               "every direct table, every behaviour of the invariants and every history of rebasings / get calls / "
               "setTaggedValue with no bound; the model is compared with the C and Python implementations on generated "
               "DAGs and histories on every run, and the implementation's raw answers are judged in Coq against "
